@@ -236,3 +236,29 @@ def register(*names):
     for n in names:
         if n not in FunctionFactory.NOT_MY_FUNCTION:
             FunctionFactory.add_function(n, SymVal(None, n))
+
+
+# ---------------------------------------------------------------- S11
+# print(): the Lark grammar object is rebuilt by every print() execution and the (concrete)
+# print string is parsed by Lark; both run natively when the string is a real str.  The
+# transformer and reference substitution (which touch run-time values) stay traced.
+from csvpath.matching.util.lark_print_parser import LarkPrintParser  # noqa: E402
+
+_orig_lpp_init = LarkPrintParser.__init__
+_orig_lpp_parse = LarkPrintParser.parse
+
+
+def _lpp_init(self, *a, **k):
+    with NoTracing():
+        _orig_lpp_init(self, *a, **k)
+
+
+def _lpp_parse(self, printstr):
+    with NoTracing():
+        if type(printstr) is str:
+            return _orig_lpp_parse(self, printstr)
+    return _orig_lpp_parse(self, printstr)
+
+
+LarkPrintParser.__init__ = _lpp_init
+LarkPrintParser.parse = _lpp_parse
